@@ -777,8 +777,14 @@ def _has_return(body):
     return any(isinstance(n, ast.Return) for st in body for n in ast.walk(st) if not isinstance(n, SCOPES))
 
 
+def _is_static(h):
+    return len(h.decorator_list) == 1 and isinstance(h.decorator_list[0], ast.Name) and h.decorator_list[0].id == 'staticmethod'
+
+
 def _inlinable(h, is_method, need_tail=True):
-    if h.decorator_list or isinstance(h, ast.AsyncFunctionDef):
+    if isinstance(h, ast.AsyncFunctionDef):
+        return False
+    if h.decorator_list and not (is_method and _is_static(h)):
         return False
     a = h.args
     if a.vararg or a.kwarg or a.kwonlyargs or getattr(a, 'posonlyargs', None):
@@ -786,7 +792,7 @@ def _inlinable(h, is_method, need_tail=True):
     if any(not isinstance(d, ast.Constant) for d in a.defaults):
         return False
     params = [x.arg for x in a.args]
-    if is_method and (not params or params[0] != 'self'):
+    if is_method and not _is_static(h) and (not params or params[0] != 'self'):
         return False
     own = own_nodes(h)
     if any(isinstance(n, (ast.Yield, ast.YieldFrom, ast.Await, ast.Global, ast.Nonlocal)) for n in own):
@@ -814,15 +820,17 @@ def _match_call(call, h, is_method):
     if not isinstance(call, ast.Call):
         return None
     fn = call.func
+    static = is_method and _is_static(h)
     if is_method:
-        if not (isinstance(fn, ast.Attribute) and fn.attr == h.name and isinstance(fn.value, ast.Name) and fn.value.id == 'self'):
+        recv = ('self', 'cls', getattr(h, '_owner_class', None)) if static else ('self',)
+        if not (isinstance(fn, ast.Attribute) and fn.attr == h.name and isinstance(fn.value, ast.Name) and fn.value.id in recv):
             return None
     elif not (isinstance(fn, ast.Name) and fn.id == h.name):
         return None
     if any(isinstance(x, ast.Starred) for x in call.args) or any(k.arg is None for k in call.keywords):
         return None
     params = [x.arg for x in h.args.args]
-    if is_method:
+    if is_method and not static:
         params = params[1:]
     if len(call.args) > len(params):
         return None
@@ -1076,9 +1084,14 @@ def inline_new_helpers(tree, known):
     # new methods
     for c in classes:
         meths = [f for f in c.body if isinstance(f, (ast.FunctionDef, ast.AsyncFunctionDef))]
+        for f in meths:
+            f._owner_class = c.name
         new = [f for f in meths if isinstance(f, ast.FunctionDef) and (c.name + '.' + f.name) not in known and _inlinable(f, True, need_tail=False)]
         if not new:
             continue
+        # a helper that only names its result before returning it is an expression: fold its single-use temporaries first
+        for h in new:
+            _undo_new_temps(h, set(params_of(h)))
         for _round in range(3):
             again = False
             for h in new:
@@ -1094,6 +1107,8 @@ def inline_new_helpers(tree, known):
                 c.body.remove(h)
     # new module-level functions
     new = [f for f in mod_funcs if f.name not in known and _inlinable(f, False, need_tail=False)]
+    for h in new:
+        _undo_new_temps(h, set(params_of(h)))
     if new:
         everyone = [f for f in ast.walk(tree) if isinstance(f, (ast.FunctionDef, ast.AsyncFunctionDef))]
         for _round in range(3):
@@ -1178,8 +1193,8 @@ def _name_uses(f, name):
     return [n for n in ast.walk(f) if isinstance(n, ast.Name) and n.id == name]
 
 
-def _candidates(f, ref_assigns=(), ref_locals=(), changed=None, ref_params=None):
-    for c in _candidates_all(f, ref_assigns, ref_locals, changed, ref_params):
+def _candidates(f, ref_assigns=(), ref_locals=(), changed=None, ref_params=None, ref_comp_names=()):
+    for c in _candidates_all(f, ref_assigns, ref_locals, changed, ref_params, ref_comp_names):
         yield c
 
 
@@ -1207,7 +1222,7 @@ def _near(changed, *nodes):
     return False
 
 
-def _candidates_all(f, ref_assigns=(), ref_locals=(), changed=None, ref_params=None):
+def _candidates_all(f, ref_assigns=(), ref_locals=(), changed=None, ref_params=None, ref_comp_names=()):
     """yields (kind, apply) where apply mutates f in place; sites are addressed by position so that they can be replayed on a copy"""
     _NEAR_CACHE.clear()
     used_names = set(n.id for n in ast.walk(f) if isinstance(n, ast.Name)) | set(a.arg for a in ast.walk(f) if isinstance(a, ast.arg))
@@ -1247,6 +1262,19 @@ def _candidates_all(f, ref_assigns=(), ref_locals=(), changed=None, ref_params=N
                 x, y = st.body[0], b[i + 1]
                 if isinstance(x, ast.Return) and isinstance(y, ast.Return) and x.value is not None:
                     yield ('ret_pair_to_ifexp', bi, i)
+            # `if a or b: T`  <->  `if a: T` `if b: T`   (T a lone terminator)
+            if isinstance(st, ast.If) and not st.orelse and len(st.body) == 1 and isinstance(st.body[0], (ast.Return, ast.Raise, ast.Continue, ast.Break)):
+                if isinstance(st.test, ast.BoolOp) and isinstance(st.test.op, ast.Or):
+                    yield ('split_or', bi, i)
+                if i + 1 < len(b) and isinstance(b[i + 1], ast.If) and not b[i + 1].orelse and len(b[i + 1].body) == 1 and ast.dump(b[i + 1].body[0]) == ast.dump(st.body[0]):
+                    yield ('merge_or', bi, i)
+            # `with X: ...; t = E` then `return t`  <->  `with X: ...; return E`
+            if isinstance(st, (ast.With, ast.AsyncWith)) and i + 1 < len(b) and isinstance(b[i + 1], ast.Return) and isinstance(b[i + 1].value, ast.Name) \
+                    and isinstance(st.body[-1], ast.Assign) and len(st.body[-1].targets) == 1 and isinstance(st.body[-1].targets[0], ast.Name) \
+                    and st.body[-1].targets[0].id == b[i + 1].value.id:
+                yield ('return_into_with', bi, i)
+            if isinstance(st, (ast.With, ast.AsyncWith)) and isinstance(st.body[-1], ast.Return) and st.body[-1].value is not None and i == len(b) - 1:
+                yield ('return_out_of_with', bi, i)
             # R10 default then override  <->  if/else
             if isinstance(st, ast.Assign) and len(st.targets) == 1 and isinstance(st.targets[0], ast.Name) and _pure(st.value) and i + 1 < len(b):
                 nx = b[i + 1]
@@ -1316,6 +1344,24 @@ def _candidates_all(f, ref_assigns=(), ref_locals=(), changed=None, ref_params=N
             for r_ in ref_locals:
                 if r_ not in cur_l and r_ not in used_names:
                     yield ('rename', c_, r_)
+    # the bound variables of comprehensions are private to them: rename towards the names the reference uses
+    comps_ = [n for n in own_ if isinstance(n, COMPS)]
+    if comps_ and ref_comp_names:
+        cur_names = set(x.id for c in comps_ for g_ in c.generators for x in ast.walk(g_.target) if isinstance(x, ast.Name))
+        for ci, c in enumerate(comps_):
+            if not _near(changed, c):
+                continue
+            for x in [x for g_ in c.generators for x in ast.walk(g_.target) if isinstance(x, ast.Name)]:
+                if x.id not in ref_comp_names:
+                    for r_ in ref_comp_names:
+                        if r_ not in cur_names and r_ not in used_names:
+                            yield ('rename_comp', ci, (x.id, r_))
+    for k3, n in enumerate(own_):
+        if isinstance(n, ast.Call) and isinstance(n.func, ast.Name) and n.func.id == 'dict' and len(n.args) == 1 and not n.keywords \
+                and isinstance(n.args[0], (ast.GeneratorExp, ast.ListComp)) and isinstance(n.args[0].elt, ast.Tuple) and len(n.args[0].elt.elts) == 2 and _near(changed, n):
+            yield ('dict_call_to_comp', k3, 0)
+        if isinstance(n, ast.DictComp) and _near(changed, n):
+            yield ('dict_comp_to_call', k3, 0)
     # parameters of a nested function (a closure is not an interface): positional renaming towards the reference
     if ref_params is not None:
         cur_p = params_of(f)
@@ -1572,6 +1618,23 @@ def _apply(f, cand, ref_assigns=()):
             return False
         _rename(f, {a: i})
         return True
+    if kind == 'rename_comp':
+        comps_ = [n for n in own_nodes(f) if isinstance(n, COMPS)]
+        c = comps_[a]
+        old_, new_ = i
+        for x in ast.walk(c):
+            if isinstance(x, ast.Name) and x.id == old_:
+                x.id = new_
+        return True
+    if kind in ('dict_call_to_comp', 'dict_comp_to_call'):
+        n = own_nodes(f)[a]
+        if kind == 'dict_call_to_comp':
+            g_ = n.args[0]
+            _replace_node(f, n, ast.DictComp(key=g_.elt.elts[0], value=g_.elt.elts[1], generators=g_.generators))
+        else:
+            ge = ast.GeneratorExp(elt=ast.Tuple(elts=[n.key, n.value], ctx=ast.Load()), generators=n.generators)
+            _replace_node(f, n, ast.Call(func=ast.Name(id='dict', ctx=ast.Load()), args=[ge], keywords=[]))
+        return True
     if kind == 'rename_param':
         for x in ast.walk(f.args):
             if isinstance(x, ast.arg) and x.arg == a:
@@ -1666,6 +1729,30 @@ def _apply(f, cand, ref_assigns=()):
         x, y = st.body[0], st.orelse[0]
         e = ast.IfExp(test=st.test, body=x.value, orelse=y.value)
         b[i] = ast.Assign(targets=x.targets, value=e) if isinstance(x, ast.Assign) else ast.Return(value=e)
+    elif kind == 'split_or':
+        parts = st.test.values
+        b[i:i + 1] = [ast.If(test=v, body=[_copy.deepcopy(st.body[0])], orelse=[]) for v in parts]
+    elif kind == 'merge_or':
+        nx = b[i + 1]
+        vals = []
+        for t_ in (st.test, nx.test):
+            vals.extend(t_.values if isinstance(t_, ast.BoolOp) and isinstance(t_.op, ast.Or) else [t_])
+        st.test = ast.BoolOp(op=ast.Or(), values=vals)
+        del b[i + 1]
+    elif kind == 'return_into_with':
+        t = b[i + 1].value.id
+        uses = [n for n in own_nodes(f) if isinstance(n, ast.Name) and n.id == t]
+        if len(uses) != 2:
+            return False
+        st.body[-1] = ast.Return(value=st.body[-1].value)
+        del b[i + 1]
+    elif kind == 'return_out_of_with':
+        r = st.body[-1]
+        name = 'result'
+        if _name_uses(f, name):
+            return False
+        st.body[-1] = ast.Assign(targets=[ast.Name(id=name, ctx=ast.Store())], value=r.value)
+        b.insert(i + 1, ast.Return(value=ast.Name(id=name, ctx=ast.Load())))
     elif kind == 'ret_pair_to_ifexp':
         x, y = st.body[0], b[i + 1]
         yv = y.value if y.value is not None else ast.Constant(value=None)
@@ -1846,10 +1933,12 @@ def towards(f, ref_text, budget=300, seconds=2.0, nested=False):
         ref_locals = ordered_locals(rf)
         ref_tests = set(tests_of(rf))
         ref_params = params_of(rf)
+        ref_comp_names = sorted(set(x.id for c in own_nodes(rf) if isinstance(c, COMPS) for g_ in c.generators for x in ast.walk(g_.target) if isinstance(x, ast.Name)))
     except SyntaxError:
         ref_locals = []
         ref_tests = set()
         ref_params = []
+        ref_comp_names = []
     start = _lines(f)
     d0 = _dist(start, ref_lines)
     if d0 == 0:
@@ -1872,7 +1961,7 @@ def towards(f, ref_text, budget=300, seconds=2.0, nested=False):
         if d > best_d + 6:
             break
         changed = _changed_lines(cur_lines, ref_lines)
-        for cand in list(_candidates(cur, ref_assigns, ref_locals, changed, ref_params if nested else None)):
+        for cand in list(_candidates(cur, ref_assigns, ref_locals, changed, ref_params if nested else None, ref_comp_names)):
             if spent >= budget:
                 break
             spent += 1
